@@ -5,7 +5,7 @@ From Coq Require Import ZArith NArith List String Bool Lia PeanoNat.
 From LV Require Import Base.Conc Base.Events Model.DhpLang Model.Dhp Proofs.DhpBase Proofs.DhpSeq Proofs.DhpSeqThm Proofs.DhpHist
   Proofs.DhpLangProofs Proofs.DhpAllocA Proofs.DhpInvB Proofs.DhpConsInv Proofs.DhpConsQuietB Proofs.DhpConsQuietB2 Proofs.DhpConsRulesB Proofs.DhpConsStepsB1 Proofs.DhpConsStepsB2
   Proofs.DhpConsStepsB3 Proofs.DhpConsStepsB4 Proofs.DhpConsStepsB5 Proofs.DhpConsStepsB6 Proofs.DhpConsStepsB7 Proofs.DhpConsProgB1 Proofs.DhpConsProgB2
-  Proofs.DhpConsProgB3 Proofs.DhpConsProgB4.
+  Proofs.DhpConsProgB3 Proofs.DhpConsProgB4 Proofs.DhpConsStepsB10.
 Import ListNotations.
 
 Definition nodetach (o : op) : Prop := o <> ODetach.
@@ -16,7 +16,7 @@ Section MainC.
   Hypothesis HRB : 4 <= RB.
   Hypothesis Hold : c_old c = false.
 
-  Definition Rel (L : Dhp.L) (l : VB) : Prop := idle l /\ forall r, l_tls L = Some r -> In r (vb_own l).
+  Definition Rel (L : Dhp.L) (l : VB) : Prop := idle l /\ forall r, l_tls L = Some r -> In r (vb_own l) /\ vb_arr l = Some r /\ vb_mine l = Some r.
   (** does the client hold a thread record (is the thread attached)? *)
   Definition tf (L : Dhp.L) : bool := match l_tls L with Some _ => true | None => false end.
   Definition Qop (b : bool) : option Dhp.L -> VB -> Prop := fun o l' => match o with Some L' => Rel L' l' /\ tf L' = b | None => True end.
@@ -50,19 +50,23 @@ Section MainC.
 
   Lemma spec_run_op t L l o : okop o -> raok o (tf L) -> Rel L l -> dsafeB c t (run_op c t L o) l (Qop (nextf o (tf L))).
   Proof.
-    intros Hnd Hra HR. pose proof HR as (Hi & Ht). pose proof Hi as (I1 & I2 & I3 & I4 & I5 & I6 & I7 & I8 & I9).
+    intros Hnd Hra HR. pose proof HR as (Hi & Ht). pose proof Hi as (I1 & I2 & I3 & I4 & I5 & I6 & I7 & I8 & I9 & I10).
     destruct o; cbn [run_op].
     - (* attach *)
       apply dsafeB_inv; [lia|]. destruct (l_tls L) as [r|] eqn:E; [apply dsafeB_skip_ret; [exact HR|tfl]|].
       apply dsafeB_xbind. apply alloc_thread_data_spec; auto; try solve [intros; exact I].
-      intros r l' (X1 & X2) Hr. cbn beta iota. apply dsafeB_xemit_q; [constructor; [apply qevB_att|constructor]|].
-      apply dsafeB_rsp_ret; [|tfl]. split; auto. cbn. intros r' E'. inversion E'; subst. exact Hr.
+      intros r l' (X1 & X2) Hr Har. cbn beta iota.
+      apply dsafeB_xemit. intros g a tr Hv. unfold viewB in Hv.
+      exists (setv a t (set_s0 (set_mine (bvs a t) (Some r)) None)). split; [eapply frame_bvs; reflexivity|]. split.
+      { intros _ _ J. apply S_att; auto; rewrite Hv; auto. unfold idle in X1. tauto. }
+      unfold viewB. cbn [bvs setv]. rewrite fn_same, Hv. clear g a tr Hv.
+      apply dsafeB_rsp_ret; [|tfl]. split; [unfold idle in *; cbn; tauto|]. cbn. intros r' E'. inversion E'; subst. split; [exact Hr|split; [exact Har|reflexivity]].
     - (* detach *)
       destruct Hnd as [Hnd|Htail]; [exfalso; apply Hnd; reflexivity|].
       apply dsafeB_inv; [lia|]. destruct (l_tls L) as [r|] eqn:E; [|apply dsafeB_skip_ret; [exact HR|tfl]].
-      apply dsafeB_xbind. apply free_thread_data_spec; auto.
+      apply dsafeB_xbind. destruct (Ht r eq_refl) as (Ht1 & Ht2 & Ht3). apply free_thread_data_spec; auto.
       + constructor; [apply qevB_relall|constructor; [apply qevB_det|constructor]].
-      + intros l' Hi'. cbn beta iota. apply dsafeB_rsp_ret; [|tfl]. split; auto. cbn. discriminate.
+      + intros l' Hi' _. cbn beta iota. apply dsafeB_rsp_ret; [|tfl]. split; auto. cbn. discriminate.
     - (* Guard ctor *)
       apply dsafeB_inv; [lia|]. destruct (l_tls L) as [r|] eqn:E; [|apply dsafeB_skip_ret; [exact HR|tfl]].
       destruct (gfind (l_guards L) j); [apply dsafeB_skip_ret; [exact HR|tfl]|].
@@ -91,7 +95,7 @@ Section MainC.
       apply dsafeB_inv; [lia|]. apply dsafeB_xact_q; [apply qB_st_src|]. intros _. apply dsafeB_rsp_ret; [exact HR|tfl].
     - (* retire *)
       unfold inv. destruct (l_tls L) as [r|] eqn:E.
-      + specialize (Ht r eq_refl).
+      + destruct (Ht r eq_refl) as (Ht' & Har & Hmi). clear Ht. rename Ht' into Ht.
         apply dsafeB_xemit. intros g a tr Hv. unfold viewB in Hv. exists (aux_pend a t p). split; [eapply frame_bvs; reflexivity|]. split.
         { intros _ Hnd' J. apply (S_retire_ev c g a tr t p); auto; rewrite Hv; auto. intros E0. rewrite E0 in Ht. contradiction. }
         unfold viewB. cbn [bvs aux_pend]. rewrite fn_same, Hv. clear g a tr Hv.
@@ -100,16 +104,16 @@ Section MainC.
         { intros J. apply S_push; auto; rewrite Hv; cbn; auto; congruence. }
         unfold viewB. cbn [bvs aux_push aux_arr]. rewrite fn_same, Hv. generalize (snd (rt_push c r p g)) as ok. clear g a tr Hv. intros ok.
         apply dsafeB_xbind. destruct ok.
-        * apply dsafeB_ret. cbn beta iota. apply dsafeB_rsp_ret; [|tfl]. split; [unfold idle; cbn; tauto|]. intros r' E'. rewrite E in E'. inversion E'; subst. exact Ht.
+        * apply dsafeB_ret. cbn beta iota. apply dsafeB_rsp_ret; [|tfl]. split; [unfold idle; cbn; tauto|]. intros r' E'. rewrite E in E'. inversion E'; subst. split; [exact Ht|split; [exact Har|exact Hmi]].
         * apply scan_spec; auto; cbn [vb_own vb_dead vb_move vb_full vb_freed vb_blk set_full set_pend]; auto; try congruence.
           all: try solve [intros; exact I].
-          apply dsafeB_rsp_ret; [|tfl]. split; [unfold idle; cbn; tauto|]. intros r' E'. rewrite E in E'. inversion E'; subst. exact Ht.
+          apply dsafeB_rsp_ret; [|tfl]. split; [unfold idle; cbn; tauto|]. intros r' E'. rewrite E in E'. inversion E'; subst. split; [exact Ht|split; [exact Har|exact Hmi]].
       + exfalso. cbn in Hra. unfold tf in Hra. rewrite E in Hra. discriminate.
     - (* scan *)
       apply dsafeB_inv; [lia|]. destruct (l_tls L) as [r|] eqn:E; [|apply dsafeB_skip_ret; [exact HR|tfl]].
-      specialize (Ht r eq_refl). apply dsafeB_xbind. apply scan_spec; auto; try congruence.
+      destruct (Ht r eq_refl) as (Ht' & Har & Hmi). clear Ht. rename Ht' into Ht. apply dsafeB_xbind. apply scan_spec; auto; try congruence.
       all: try solve [intros; exact I].
-      apply dsafeB_rsp_ret; [|tfl]. split; [unfold idle; cbn; tauto|]. intros r' E'. rewrite E in E'. inversion E'; subst. exact Ht.
+      apply dsafeB_rsp_ret; [|tfl]. split; [unfold idle; cbn; tauto|]. intros r' E'. rewrite E in E'. inversion E'; subst. split; [exact Ht|split; [exact Har|exact Hmi]].
     - (* wait *)
       apply dsafeB_inv; [lia|]. apply dsafeB_quiet_seq; [apply qB_wait_loop|exact I|]. intros _. apply dsafeB_rsp_ret; [exact HR|tfl].
   Qed.
